@@ -288,7 +288,10 @@ def oracle_listing(R, root, mode, out, stats=None):
                 yield ("cycle_only_when_asked", "D31" if twover else None, "RuntimeError without checkCycles")
             elif not cyclic and not unsetup:
                 yield ("cycle_only_when_cyclic", "D31" if twover else None, "cycle reported on an acyclic closure")
-        elif out == "Recursion" and unsetup and (cyclic or any(t == u for u in expanded for t, _, _ in R.succ.get(u, []))):
+        elif out == "Recursion" and any(R.has_unsetup.get(u) and not R.decl[(u[0], u[1])].get("missing")
+                                        for u in R.closure(rootn, ignore_j=True)[1]):
+            # an unsetup line starts a fresh listing that does not honour the visited set (nor the -j of the line that led
+            # here): whenever that listing comes back to the table with the unsetup line, it never ends
             yield ("terminates", "D32", "recursion limit: unsetupRequired inside a dependency cycle")
         else:
             yield ("no_error", None, "listing raised %s" % out)
